@@ -153,7 +153,7 @@ func errIsNotFound(err error) bool { return errors.Is(err, db.ErrKeyNotFound) }
 // TestPropAccessorRoundTrip: arbitrary records written with the core.Write* accessors at sparse block
 // numbers are returned unchanged by every read accessor; partial decoders agree with the full one.
 func TestPropAccessorRoundTrip(t *testing.T) {
-	stats.Check(t, stats.Budget{Quick: 500, Thorough: 10000},
+	stats.Check(t, stats.Budget{Quick: 1200, Thorough: 10000},
 		"arbitrary headers (optional fields nil/set), 0-12 transactions of all kinds/versions with receipts (events, messages, resources, revert reasons), state updates, classes and CASM metadata written with the core.Write* accessors at sparse block numbers (CBOR width boundaries) on memory or Pebble, read back through every accessor of core/accessors.go incl. partial decoders; hashes recomputed from read-back transactions must equal the stored hashes; non-trivial = block with >= 2 transactions of different kinds, an empty block, or a header with a nil optional field",
 		func(rt *rapid.T, c *stats.Case) {
 			u := gen.NewUniverse(rt)
@@ -432,7 +432,7 @@ func TestPropAccessorRoundTrip(t *testing.T) {
 // TestPropEncoderRoundTrip: encoder.Marshal∘Unmarshal is the identity on storable values, and classes / CASM
 // metadata round-trip through their accessors.
 func TestPropEncoderRoundTrip(t *testing.T) {
-	stats.Check(t, stats.Budget{Quick: 600, Thorough: 12000},
+	stats.Check(t, stats.Budget{Quick: 1500, Thorough: 12000},
 		"transactions (as interface values), receipts, headers, state updates, Sierra/Cairo-0 classes and CASM metadata through encoder.Marshal/Unmarshal and WriteClass/GetClass; non-trivial = value has a nil-able field set to nil or an empty slice",
 		func(rt *rapid.T, c *stats.Case) {
 			u := gen.NewUniverse(rt)
@@ -513,7 +513,7 @@ func TestPropEncoderRoundTrip(t *testing.T) {
 // TestPropStoredChainReadBack: blocks stored through Blockchain.Store are returned unchanged by every
 // blockchain.Reader accessor (compared with the ORIGINAL generated values, on both state backends).
 func TestPropStoredChainReadBack(t *testing.T) {
-	stats.Check(t, stats.Budget{Quick: 120, Thorough: 2500},
+	stats.Check(t, stats.Budget{Quick: 250, Thorough: 2500},
 		"generated valid chains (1-5 blocks) stored through SanityCheckNewHeight+Store on a drawn backend; every Reader accessor (block/header by number & hash, tx by hash / (block,index), receipts, status, hashes, counts, state update by number & hash, commitments, L1-message lookup, declared classes) compared with the originals; non-trivial = chain contains a block with >= 2 transactions and one empty block or L1 handler",
 		func(rt *rapid.T, c *stats.Case) {
 			u := gen.NewUniverse(rt)
